@@ -125,7 +125,10 @@ impl<'tcx> Cx<'tcx> {
                         | rustc_hir::definitions::DefPathData::Ctor
                 )
             });
-            if plain {
+            let is_adt = matches!(self.tcx.def_kind(did), DefKind::Struct | DefKind::Enum | DefKind::Union);
+            if plain || is_adt {
+                // (types declared inside function bodies, e.g. serde's `__Visitor` / `__SerializeWith`,
+                // would otherwise print identically: use the unique definition path)
                 return format!("{}{}", kname, dp.to_string_no_crate_verbose());
             }
         }
